@@ -21,7 +21,19 @@ class NotAValue(Exception):
 
 
 def schema(T, cache=None):
-    """A fresh pyasn1 schema object for T."""
+    """A fresh pyasn1 schema object for T.  cache: a dict makes equal sub-types share ONE schema object (module-level
+    type definitions reused in several places, as real programs have them)."""
+    if cache is not None:
+        if T in cache:
+            return cache[T]
+        cache[T] = r = _schema(T, cache)
+        return r
+    return _schema(T, None)
+
+
+def _schema(T, cache):
+    def schema(t):
+        return globals()['schema'](t, cache)
     k = T[0]
     if k == 'tag':
         inner = schema(T[4])
